@@ -11,6 +11,10 @@ sys.path.insert(0, str(Path(__file__).resolve().parent))
 from common import Ctx, MachineryError  # noqa: E402
 
 MODULES = {
+    "C01": "c01_odegen",
+    "C02": "c01_odegen",
+    "C03": "c01_odegen",
+    "C04": "c01_odegen",
     "C14": "c14_network",
     "C15": "c14_network",
     "C19": "c19_solve",
